@@ -166,6 +166,14 @@ def _returns_in_tail_position(block: list[ast.stmt]) -> bool:
     return True
 
 
+_COMMON_METHOD_NAMES = frozenset(
+    n for t in (dict, list, str, bytes, set, tuple, int, float, bytearray, frozenset, object)
+    for n in dir(t)) | frozenset(
+    {'read', 'write', 'seek', 'tell', 'close', 'flush', 'open', 'get', 'post', 'put', 'delete', 'add', 'commit',
+     'query', 'filter', 'first', 'all', 'one', 'execute', 'encode', 'decode', 'parse', 'load', 'save', 'run',
+     'start', 'stop', 'send', 'recv', 'next', 'iter', 'render', 'validate', 'group', 'match', 'search', 'sub'})
+
+
 def _without_bare_return(body: list) -> list | None:
     """block in which every bare `return` that sits in if-branches (at any depth, outside loops) is gone:
     what follows an `if` is continued inside the branches that fall through.  None when there is nothing
@@ -2142,7 +2150,30 @@ class Normaliser:
                 cands = [c for c in self.new_named(f.attr) if c[1] is not None]
                 if len(cands) == 1:
                     return cands[0][2], f.value, cands[0][0], False
+            elif f.attr not in _COMMON_METHOD_NAMES and not f.attr.startswith('__'):
+                # w.length_field(..) on a local / parameter: the one new method of that name in the repository,
+                # when no other class of the repository (new or old) defines a method of the same name
+                cands = [c for c in self.new_named(f.attr) if c[1] is not None
+                         and not any(ast.unparse(d).split('.')[-1] in ('staticmethod', 'classmethod', 'property')
+                                     for d in c[2].decorator_list)]
+                if len(cands) == 1 and self._method_name_is_unique(f.attr):
+                    return cands[0][2], f.value, cands[0][0], False
         return None
+
+    def _method_name_is_unique(self, name: str) -> bool:
+        cache = getattr(self, '_uniq_cache', None)
+        if cache is None:
+            cache = self._uniq_cache = {}
+        if name not in cache:
+            import re as _re
+            n = 0
+            for rel in self.repo.py_files('dashlive'):
+                try:
+                    n += len(_re.findall(rf'^\s*(?:async\s+)?def\s+{_re.escape(name)}\s*\(', self.repo.source(rel), _re.M))
+                except Exception:       # noqa: BLE001
+                    pass
+            cache[name] = n == 1
+        return cache[name]
 
     def _new_class(self, name: str, rel, mod):
         for n in getattr(mod, 'body', []):
